@@ -132,6 +132,7 @@ def run_history(ops):
         # every history starts with a user file
         run.write(p, U1)
         m.write(U1)
+        last_kill = None          # the last killed run's protocol point (None: no run was killed so far)
         for i, op in enumerate(ops):
             sig = {'kind': 'history', 'op': op}
             rep = {'history': list(ops), 'step': i}
@@ -147,6 +148,8 @@ def run_history(ops):
                 nruns += 1
                 if r.timeout:
                     return fails, {'runs': nruns, 'inconclusive': 1}
+                # (for the signature of a failure) does the user's text happen to match a stale md5 record left by a killed run?
+                stale_match = bool(last_kill) and m.file != m.last_left and md5(m.file) == m.md5rec
                 m.replace(cfg)
                 before_backup_expect = m.expected_backup
                 got_file, got_backup, got_md5, raw = read_state(d)
@@ -163,7 +166,7 @@ def run_history(ops):
                 # the property's invariant, directly
                 if not m.suspended:
                     if got_backup != before_backup_expect:
-                        fails.append((dict(sig, relation='backup-is-not-last-user-text'),
+                        fails.append((dict(sig, relation='backup-is-not-last-user-text', after_kill=last_kill, user_text_matches_stale_md5=stale_match),
                                       dict(rep, backup=core.preview(got_backup or b'<none>', 200), last_user_text=core.preview(before_backup_expect or b'<none>', 200))))
                     if got_file is not None and got_md5 != md5(got_file):
                         fails.append((dict(sig, relation='md5-does-not-describe-file'), dict(rep, md5_file=got_md5, file_md5=md5(got_file))))
@@ -193,6 +196,7 @@ def run_history(ops):
             if got_file != orig:
                 m.last_left = got_file
             m.suspended = True
+            last_kill = op
             tmp = os.path.join(d, NAME + '.uncrustify')
             if os.path.exists(tmp):
                 os.unlink(tmp)
